@@ -19,10 +19,13 @@ same-module helper), and bucket_of maps each granularity to its own sibling in b
 of that same result (today: chrono can represent it) - 1e300 would otherwise be accepted and stored as i64::MAX.
 (h) at every literal-to-instant site of (b), a raw numeric parse of the literal text (str::parse) is only the fallback behind the shared parser: it sits on the None edge of
 TimeParser::parse_str_to_epoch_seconds - taking an all-digit literal verbatim skips the unit heuristic, so an epoch in ms / us / ns is read as seconds on that path only (pruner vs row filter disagree).
+(i) every spelling floors: the unit lanes of TimeParser::normalize_integer_epoch divide with div_euclid, not with `/` (which truncates toward zero: an instant before 1970 in ms / us / ns would land one
+second later than its ISO-8601 and float spellings).
+(j) SINCE accepts the spellings the documentation shows: the QUERY grammar's since_clause reaches both string_literal and integer.
 Does NOT decide the parser's arithmetic (digit-count boundaries, pre-1970, offsets), float epochs, or how ambiguous/skipped local times are resolved.
 """
-FLOOR = 8
-REQUIRED = ["C16.a", "C16.b", "C16.c", "C16.d", "C16.e", "C16.f", "C16.g", "C16.h"]
+FLOOR = 10
+REQUIRED = ["C16.a", "C16.b", "C16.c", "C16.d", "C16.e", "C16.f", "C16.g", "C16.h", "C16.i", "C16.j"]
 
 CHRONO_PARSE = re.compile(r"^chrono::.*(parse_from_rfc3339|parse_from_rfc2822|parse_from_str|parse_and_remainder|FromStr>::from_str)$|^(time|humantime|dateparser|iso8601)::")
 PARSER_FNS = {"shared::time::TimeParser::parse_str_to_epoch_seconds", "shared::time::TimeParser::normalize_json_value"}
@@ -318,3 +321,33 @@ def run(ctx):
             inst.sites.append("no site parses a time literal as a raw integer")
         return bad
     ctx.run("C16.h", "K1 DOM", "time normalisation sites", "a raw integer parse of a time literal is only the fallback of the shared parser", h_)
+
+    def i_(inst):
+        b = F.fn("shared::time::TimeParser::normalize_integer_epoch")
+        de = b.find_calls(r"div_euclid$")
+        trunc = []
+        for i in sorted(b.live_blocks()):
+            for st in b.blocks[i]["s"]:
+                v = st.get("v")
+                if v and v.get("r") == "bin" and v.get("op") == "Div" and "i128" in (v["b"].get("k") or "") + b.local_ty(st["a"][0]):
+                    trunc.append(i)
+        inst.sites = ["div_euclid x%d, truncating `/` on i128 x%d" % (len(de), len(trunc))]
+        if trunc:
+            return [("epoch-truncates-toward-zero", "normalize_integer_epoch scales a signed epoch with `/` (%s): a pre-1970 instant in ms / us / ns is stored one second later than its ISO-8601 spelling" % sp(b, trunc[0]), None)]
+        if len(de) < 3:
+            raise AnchorMissing("the three unit lanes of normalize_integer_epoch (div_euclid x%d)" % len(de))
+        return []
+    ctx.run("C16.i", "K6 TABLE", "TimeParser::normalize_integer_epoch", "integer epochs are floored to the second like the other spellings", i_)
+
+    def j_(inst):
+        k = "command::parser::commands::query::sneldb_query::__parse_since_clause"
+        if not F.has(k):
+            raise AnchorMissing(k)
+        b = F.fn_exact(k)
+        callees = sorted({c_.nname.split("::")[-1] for c_ in b.calls if not c_.cleanup and "sneldb_query::__parse_" in c_.nname})
+        inst.sites = ["since_clause -> %s" % callees]
+        miss = [x for x in ("__parse_string_literal", "__parse_integer") if x not in callees]
+        if miss:
+            return [("since-spelling-rejected:%s" % ",".join(m_[8:] for m_ in miss), "the SINCE clause of QUERY does not accept %s (docs/src/commands/query.md shows both a quoted literal and a bare epoch)" % [m_[8:] for m_ in miss], None)]
+        return []
+    ctx.run("C16.j", "K4 REACH", "QUERY grammar: since_clause", "SINCE accepts quoted literals and bare epochs", j_)
